@@ -85,6 +85,7 @@ class GBS(Gaussian):
 
         # there should be only Fock measurements in B
         measured = set()
+        select, dark_counts = {}, {}
         for cmd in B:
             if not isinstance(cmd.op, ops.MeasureFock):
                 raise CircuitError("The Fock measurements are not consecutive.")
@@ -95,6 +96,20 @@ class GBS(Gaussian):
                 raise CircuitError("Measuring the same mode more than once.")
             measured |= temp
 
+            # keep the post-selection values and dark counts of the measured modes
+            if cmd.op.select is not None:
+                select.update(zip(cmd.reg, cmd.op.select))
+            if cmd.op.dark_counts is not None:
+                dark_counts.update(zip(cmd.reg, cmd.op.dark_counts))
+
         # replace B with a single Fock measurement
-        B = [Command(ops.MeasureFock(), sorted(list(measured), key=lambda x: x.ind))]
+        regs = sorted(list(measured), key=lambda x: x.ind)
+        options = {}
+        if select and dark_counts:
+            raise CircuitError("Post-selection cannot be used together with dark counts.")
+        if select:
+            options["select"] = [select.get(r) for r in regs]
+        if dark_counts:
+            options["dark_counts"] = [dark_counts.get(r, 0) for r in regs]
+        B = [Command(ops.MeasureFock(**options), regs)]
         return super().compile(A + B, registers)
